@@ -20,6 +20,7 @@ import (
 	"errors"
 	"flag"
 	"fmt"
+	"log/slog"
 	"net/http"
 	"os"
 	"path/filepath"
@@ -119,11 +120,14 @@ type world struct {
 	ended   map[string]bool
 	cancels map[string]context.CancelFunc
 	// context of the API calls other than copies and closes; a close of kind "late" takes it over
-	opCtx    context.Context
-	opCancel context.CancelFunc
-	nabort   int
-	nclose   int
-	opsRun   []*opRes
+	opCtx      context.Context
+	opCancel   context.CancelFunc
+	nabort     int
+	nclose     int
+	hook       *gcHook  // log handler that can hold a Close (hold.go)
+	called     []string // copies called during a close and not yet logged as in progress
+	heldCloses int
+	opsRun     []*opRes
 
 	drift     []string
 	adapted   int
@@ -320,11 +324,15 @@ func (w *world) loadRepo(h *simreg.Host, repo string) {
 	}
 }
 
-func newClient(net *simreg.Net, gc bool) (*regclient.RegClient, error) {
-	rc := regclient.New(
+func newClient(net *simreg.Net, gc bool, hook *gcHook) (*regclient.RegClient, error) {
+	opts := []regclient.Opt{}
+	if hook != nil {
+		opts = append(opts, regclient.WithSlog(slog.New(hook)))
+	}
+	rc := regclient.New(append(opts,
 		regclient.WithConfigHost(config.Host{Name: srcHost, Hostname: srcHost, TLS: config.TLSDisabled, ReqConcurrent: 32}),
 		regclient.WithRegOpts(reg.WithHTTPClient(&http.Client{Transport: net}), reg.WithDelay(time.Millisecond, 5*time.Millisecond)),
-	)
+	)...)
 	if !gc {
 		// regclient.New has no option that reaches ocidir.WithGC: replace the scheme instance of
 		// this client (unexported map) by one created with ocidir.WithGC(false)
@@ -411,7 +419,7 @@ func (w *world) setup(work string) error {
 	w.opCtx, w.opCancel = context.WithCancel(w.ctx)
 	// content the layout held before this process: copied by another client instance
 	if len(w.sc.Conf.Pre) > 0 {
-		pre, err := newClient(w.net, true)
+		pre, err := newClient(w.net, true, nil)
 		if err != nil {
 			return err
 		}
@@ -443,7 +451,8 @@ func (w *world) setup(work string) error {
 			return err
 		}
 	}
-	rc, err := newClient(w.net, w.sc.Conf.GC)
+	w.hook = newHook()
+	rc, err := newClient(w.net, w.sc.Conf.GC, w.hook)
 	if err != nil {
 		return err
 	}
@@ -466,7 +475,11 @@ func b2i(b bool) int {
 	return 0
 }
 
-func (w *world) startCopy(c string) error {
+func (w *world) startCopy(c string) error { return w.startCopyEv(c, "copy_begin") }
+
+// startCopyEv calls ImageCopy in a goroutine of its own; ev is how the call is logged: copy_begin,
+// or copy_call when a Close has not returned yet (hold.go)
+func (w *world) startCopyEv(c, evName string) error {
 	cc, ok := w.sc.Conf.CP[c]
 	if !ok {
 		return fmt.Errorf("unknown copy %q", c)
@@ -520,7 +533,7 @@ func (w *world) startCopy(c string) error {
 	}
 	ctx, cancel := context.WithCancel(w.ctx)
 	w.cancels[c] = cancel
-	w.emit(vtrace.Event{"ev": "copy_begin", "c": c})
+	w.emit(vtrace.Event{"ev": evName, "c": c})
 	w.started[c] = true
 	go func() {
 		err := w.rc.ImageCopy(ctx, src, tgt, opts...)
@@ -887,8 +900,9 @@ func (w *world) checkDrift(i int, a string, f []string, x [][]string) bool {
 func (w *world) run() error {
 	w.emit(vtrace.Event{"ev": "start", "gc": b2i(w.sc.Conf.GC)})
 	exactSoFar := true
+	skipTo := -1
 	for i, st := range w.sc.Steps {
-		if strings.HasPrefix(st.A, "i:") {
+		if strings.HasPrefix(st.A, "i:") || i <= skipTo {
 			continue
 		}
 		w.scheduled++
@@ -901,6 +915,18 @@ func (w *world) run() error {
 			err = w.startCopy(st.C)
 		case "Close":
 			err = w.doClose(st.N, st.T)
+		case "CloseBegin":
+			// a close that collects: the steps up to its CloseEnd happen while it runs
+			j := i + 1
+			for j < len(w.sc.Steps) && w.sc.Steps[j].A != "CloseEnd" {
+				j++
+			}
+			if j == len(w.sc.Steps) {
+				err = errors.New("CloseBegin without CloseEnd")
+				break
+			}
+			err = w.doCloseHeld(st.N, st.T, w.sc.Steps[i+1:j])
+			skipTo = j
 		case "CopyHeadSame", "CopyFetch", "CopyRefList", "CopyBlobStart", "CopyAbort":
 			var ok bool
 			ok, err = w.gated(st)
@@ -1014,6 +1040,7 @@ func runScenario(sc *scenario, work string) *vtrace.Trace {
 	tr.Meta["exact"] = w.exact
 	tr.Meta["scheduled"] = w.scheduled
 	tr.Meta["adapted"] = w.adapted
+	tr.Meta["held"] = w.heldCloses
 	if len(w.drift) > 0 {
 		tr.Meta["drift"] = w.drift
 	}
